@@ -249,13 +249,25 @@ Theorem C05_stored_model_sb : forall ci0 rounds ssize n ci,
 Proof. exact stored_model_sb. Qed.
 Print Assumptions C05_stored_model_sb.
 
-(** Outside that theorem and wrong in the current code: [Bencher::counter] of
-    the same kind called after [input_counter], explicit sample size: the
-    constant stays as a stale first entry (4 counts for 3 samples), so each
-    sample reads its predecessor's count. *)
-Theorem C05_counter_after_input_counter_refuted :
-  record_rounds (0%nat, set_counter 3023 (set_input_counter {| ci_counts := []; ci_input := false |}))
+(** [Bencher::counter] of kind K called after [input_counter] of kind K
+    (current code, after the fix 5377f60): the constant replaces the per-input
+    counter.  For any rounds: no panic, one stored count, the kind is not
+    per-input, every sample reports the constant. *)
+Theorem C05_counter_overrides_input_counter : forall ci0 c rounds,
+  let ci := {| ci_counts := [c]; ci_input := false |} in
+  set_counter c (set_input_counter ci0) = ci /\
+  record_rounds (0%nat, set_counter c (set_input_counter ci0)) rounds
+    = Ok (length (kept_samples [] rounds), ci) /\
+  constant_counter_sb c ci = true /\
+  forall s, count_for ci s = Some c.
+Proof. exact counter_overrides_input_counter. Qed.
+Print Assumptions C05_counter_overrides_input_counter.
+
+(** The behaviour before that fix, kept as a witness: the constant stayed as a
+    stale first entry of a per-input kind (4 counts for 3 samples). *)
+Theorem C05_old_counter_after_input_counter_stale :
+  record_rounds (0%nat, set_counter_old 3023 (set_input_counter {| ci_counts := []; ci_input := false |}))
                 [(false, 2, [[252; 726]; [432; 141]; [615; 321]])]
   = Ok (3%nat, {| ci_counts := [3023; 489; 286; 468]; ci_input := true |}).
-Proof. exact counter_after_input_counter_is_stale. Qed.
-Print Assumptions C05_counter_after_input_counter_refuted.
+Proof. exact old_counter_after_input_counter_is_stale. Qed.
+Print Assumptions C05_old_counter_after_input_counter_stale.
